@@ -1,3 +1,4 @@
+import QF.Props.Tie
 import QF.Core.Frame
 /-!
 # C06 â€” Apply computes each destination cell from the same row and changes nothing else
@@ -27,5 +28,8 @@ theorem applyFn1_rowwise (f : Fr.Frame) (L : Nat) (h : Fr.WF f L) (fn : Fr.Val â
     List.map (fun p => (Fr.applyFn1 f L fn rty src).data[p]?) f.index =
       List.map (fun p => Option.map fn src.data[p]?) f.index :=
   Fr.applyFn1_rowwise f L h fn rty src hl
+
+/-- T1: the functions this property's mirror model follows have today the source text the model was written against. -/
+theorem tie : Tie.sameAll ["qframe.setColumn", "qframe.QFrame.Apply", "qframe.QFrame.apply0", "qframe.QFrame.apply1", "qframe.QFrame.apply2", "qframe.QFrame.FilteredApply", "qframe.QFrame.WithRowNums", "icolumn.Column.Apply1", "icolumn.Column.Apply2", "scolumn.toUpper", "ecolumn.toUpper"] = true := by decide
 
 end QF.Props.C06
